@@ -3,6 +3,7 @@
 cd "$(dirname "$0")/.."
 for d in seeded/*/; do
   name=$(basename $d)
+  if [ -n "$ONLY" ] && ! echo " $ONLY " | grep -q " $name "; then continue; fi
   prop=$(python3 -c "import json;print(json.load(open('$d/meta.json')).get('property','?'))")
   git -C /repo apply /verif/$d/patch.diff || { echo "$name: patch does not apply"; continue; }
   out=$(timeout 1500 ./check $prop --tier quick 2>&1); rc=$?
